@@ -107,6 +107,7 @@ const (
 	opReplace  = 0x03
 	opDelete   = 0x04
 	opQuit     = 0x07
+	opQuitQ    = 0x17
 	opGetQ     = 0x09
 	opNoop     = 0x0a
 	opVersion  = 0x0b
@@ -191,6 +192,9 @@ func EncodeBinary(c Cmd) []byte {
 	case Stat:
 		return binFrame(opStat, nil, "", nil, c.Opaque)
 	case Quit:
+		if c.Quiet {
+			return binFrame(opQuitQ, nil, "", nil, c.Opaque)
+		}
 		return binFrame(opQuit, nil, "", nil, c.Opaque)
 	case UnknownCmd:
 		return binFrame(0x05, nil, c.Key, nil, c.Opaque) // increment: not supported by rend
